@@ -8,10 +8,42 @@ from bip_utils import (Bip44, Bip44Coins, Bip44Changes, Bip32KeyData, Bip32KeyNe
                        Bip32KeyError)
 
 LEAN_MODULES = ["BipVerif.Props.C04"]
-IMPL = {"derive": B32["derive"], "childpub": B32["childpub"], "kholawderive": C18["kholawderive"]}
+from harness.props import c19 as _c19
+IMPL = {"derive": B32["derive"], "childpub": B32["childpub"], "kholawderive": C18["kholawderive"], "kholawraw": C18["kholawraw"],
+        "fromxkey": B32["fromxkey"], "substrate": _c19.IMPL["substrate"]}
+ORACLES = _c19.ORACLES
+
+
+def _extra_cases(rng, tier):
+    """parents loaded from extended keys whose metadata the library itself writes for keys built from raw bytes (depth > 0 with an all-zero
+    parent fingerprint); Substrate soft junctions from public-only objects, with the refusal of hard ones anywhere in the path; BIP32-Ed25519
+    parents given as raw keys at the edges of the scalar range"""
+    from harness.props.c05 import key_net_versions, ser
+    import sr25519
+    kvs = key_net_versions()
+    for i in range(6 if tier == "quick" else 150):
+        c = ("secp256k1", "nist256p1")[i % 2]
+        pv, sv = kvs[i % len(kvs)]
+        kb = rng.randrange(1, 2**255).to_bytes(32, "big")
+        pub = CLS[c].FromPrivateKey(kb).PublicKey().RawCompressed().ToBytes()
+        depth, idx, cc = rng.choice([1, 3, 5, 255]), rand_index(rng), bytes(rng.randrange(256) for _ in range(32))
+        yield Case("fromxkey", [c, hx(pv), hx(sv), tx(ser(pv, depth, bytes(4), idx, cc, pub))], "xpub-zero-fingerprint")
+        yield Case("fromxkey", [c, hx(pv), hx(sv), tx(ser(sv, depth, bytes(4), idx, cc, b"\x00" + kb))], "xprv-zero-fingerprint")
+    for i in range(10 if tier == "quick" else 300):
+        seed = bytes(rng.randrange(256) for _ in range(32))
+        key = bytes(sr25519.pair_from_seed(seed)[0])
+        js = [rng.choice(["/", "/", "//"]) + rng.choice(["0", "1", "alice", "stash", "4294967296", "a b"]) for _ in range(rng.randrange(1, 4))]
+        yield Case("substrate", ["pub", hx(key), _c19.COINS[i % len(_c19.COINS)], tx("".join(js)), 99], "substrate-public-only" if all(not j.startswith("//") for j in js) else "neg-substrate-hard-on-public")
+        yield Case("substrate", ["seed", hx(seed), _c19.COINS[i % len(_c19.COINS)], tx("".join(js)), rng.randrange(0, len(js))], "substrate-converted")
+    for kl in (2**255 - 8, 2**255 - 2**227 + 8, 2**254 + 2**253, 2**255 + 8, 8):
+        kr, cc = bytes(rng.randrange(256) for _ in range(32)), bytes(rng.randrange(256) for _ in range(32))
+        for idx in (0, 2**31 - 1):
+            yield Case("kholawraw", [hx(kl.to_bytes(32, "little") + kr), hx(cc), nats([idx]), 1], "raw-parent-edge")
+            yield Case("kholawraw", [hx(kl.to_bytes(32, "little") + kr), hx(cc), nats([idx]), 0], "raw-parent-edge-public")
 
 
 def gen(rng, tier):
+    yield from _extra_cases(rng, tier)
     n = 60 if tier == "quick" else 3000
     for i in range(n):
         c = ("secp256k1", "nist256p1")[i % 2]
